@@ -12,6 +12,7 @@ def run(chk):
     geom.mesh_siblings(chk, "C13")
     geom.field_rotate_siblings(chk, "C13")
     geom.raise_after_effect(chk, "C13")
+    geom.api_purity(chk, "C13")
     chk.assume("invariants after sequences follow by induction from per-step preservation, which is what is decided; "
                "floating-point equality of in-place and copy results is not decided")
     chk.trust("np.minimum/np.maximum are element-wise min/max; np.add/np.subtract element-wise (numpy reference)")
